@@ -134,11 +134,14 @@ func (s *Server) serve(ctx context.Context, listener net.Listener, handler Modbu
 	s.mu.Unlock()
 	l := onceCloseListener{Listener: listener}
 	defer l.Close()
+	// Accept blocks, so cancelling the context must close the listener for serve to return
+	stopOnCancel := context.AfterFunc(ctx, func() { _ = l.Close() })
+	defer stopOnCancel()
 
 	for {
 		netConn, err := l.Accept()
 		if err != nil {
-			if s.isShutdown.Load() {
+			if s.isShutdown.Load() || ctx.Err() != nil {
 				return ErrServerClosed
 			}
 			return err
